@@ -40,6 +40,12 @@ def run(plan, sched_values=None, sched_seed=0):
     f = oracles.Facts(h)
     v = oracles.check_session_events(h, f)
     pr = {}
+    # heartbeat-boundary ties (PONG exactly at the deadline) belong to C07,
+    # where they are aimed at and listed as finding K7
+    tie = [x for x in v if x['sig'].endswith('ws-timeout-tie-pong-at-deadline')]
+    if tie:
+        pr['heartbeat_tie_left_to_C07'] = len(tie)
+        v = [x for x in v if x not in tie]
     nontrivial = False
     for sid, s in f.sess.items():
         if s['accepted'] and f.causes(sid):
